@@ -29,6 +29,11 @@ func (s *sim) judgeCheckShow(st Step, res *world.Result, stderr string, fr *fres
 	switch {
 	case expectFail && res.Exit == 0:
 		if envTrouble {
+			if !st.NoGo && len(badT) == 0 && len(typeErrT) == 0 && !badSet {
+				// the injected getwd failure was overcome (a fallback to $PWD, say) and the answer is the truthful one
+				e.Stats.Counts.Add("fault_tolerated_by_the_tool_success_verified", 1)
+				break
+			}
 			s.violate("C19", "A1", st.Cmd+"/exit0-although-it-could-not-run", "exit != 0", "exit 0", st.String())
 			break
 		}
